@@ -40,7 +40,9 @@ RULE = ("cases: random small networks (0..2 hidden layers, widths 1..6, relu/lea
         "multiclass / continuous targets and sensitive features, demographic_parity / equalized_odds, list models "
         "(observed after 1..2 warm-up steps) and user modules (first step observed), one partial_fit step with SGD; "
         "non-trivial = some predictor tensor has >= 2 rows, non-zero adversary gradient and an all-pairs inner sum "
-        "that differs from the Frobenius product (so the b4dd69e defect would be visible) ")
+        "that differs from the Frobenius product (so the b4dd69e defect would be visible); in a third of the "
+        "warmed-up cases the estimator is built with another alpha and re-configured with set_params(alpha=...) "
+        "before the observed step (the step must use the estimator's current alpha) ")
 EXHAUSTIVE = {"quick": False, "thorough": False}
 
 TINY32 = Fraction(1, 2 ** 126)
@@ -124,6 +126,12 @@ def _one(seed, i, tier_tag):
             c["pred"] = [3, "relu"]
     elif z == 1 and variant == "module":   # adversary whose first layer is zero: dLA/dW = 0 everywhere, dLP/dW not
         c["zero"] = "adv"
+    # alpha re-configured between steps (set_params after the warm-up steps): the observed step must use the
+    # estimator's CURRENT alpha, not the one the engine was built with.  Separate stream: the other fields of
+    # the case are what they were before this variant existed.
+    r2 = Rng(seed, PID, tier_tag + "-alpha-warm", i)
+    if c["warm"] > 0 and r2.chance(1, 3):
+        c["alpha_warm"] = r2.choice([a for a in (0, 0.5, 1, 3.5) if a != c["alpha"]])
     return c
 
 
@@ -138,6 +146,8 @@ def cases(tier, seed):
                                "y": [0, 1, 2, 1], "a": [0, 1, 1, 0]},
                 "batch": {"X": [[-0.5, 1.0, 0.75], [1.5, -0.25, -1.0], [0.25, 0.5, 1.25], [2.0, -1.5, 0.5]],
                           "y": [2, 0, 1, 0], "a": [1, 0, 0, 1]}})
+    out.append(dict(out[-1], alpha_warm=3.5))          # same step after the estimator was built with another alpha
+    out.append(dict(out[-2], alpha=0, alpha_warm=1))
     return out
 
 
@@ -223,7 +233,8 @@ def impl(case):
     est = Est(backend="torch", predictor_model=pm, adversary_model=am,
               predictor_optimizer=lambda m: torch.optim.SGD(m.parameters(), lr=lr_p),
               adversary_optimizer=lambda m: torch.optim.SGD(m.parameters(), lr=lr_a),
-              constraints=case["constraints"], alpha=case["alpha"], random_state=case["rs"])
+              constraints=case["constraints"], alpha=case.get("alpha_warm", case["alpha"]),
+              random_state=case["rs"])
 
     def arrs(b):
         return np.array(b["X"], dtype=float), np.array(b["y"]), np.array(b["a"])
@@ -235,6 +246,8 @@ def impl(case):
         if not all(bool(torch.isfinite(p).all()) for mdl in (eng.predictor_model, eng.adversary_model)
                    for p in mdl.parameters()):
             return {"warm_nonfinite": True, "tensors": [], "adv": []}
+    if "alpha_warm" in case:
+        est.set_params(alpha=case["alpha"])
     X, y, a = arrs(ob)
     if case["warm"] == 0:
         P, U = pm, am                                  # user modules: the very first step is observed
@@ -482,7 +495,7 @@ def compare(case, out, model):
 def tags(case, out, model):
     t = [f"variant:{case['variant']}", f"y:{case['ytype']}", f"a:{case['atype']}", f"c:{case['constraints'][:2]}",
          f"alpha:{case['alpha']}", f"hidden:{sum(1 for x in case['pred'] if isinstance(x, int))}",
-         f"zero:{case.get('zero')}"]
+         f"zero:{case.get('zero')}", f"alpha-reconfigured:{'alpha_warm' in case}"]
     if not out["tensors"]:
         return t + ["warm-up-nonfinite"]
     rows = max(_shape(x["W"])[0] for x in out["tensors"])
@@ -518,6 +531,8 @@ def _drop_layer(spec):
 
 
 def shrink(case):
+    if "alpha_warm" in case:
+        yield {k: v for k, v in case.items() if k != "alpha_warm"}
     for s in _drop_layer(case["adv"]):
         yield dict(case, adv=s)
     if case.get("zero") != "X":
